@@ -148,6 +148,19 @@ fn run_tokens(tokens: &[Token]) -> Sexp {
     )
 }
 
+/// What a caller does with a returned error: `to_string()`, the alternate form (with the chain of
+/// causes), `Debug`, and the same for every `source()` in the chain.  These build snippets and
+/// line / column information; a panic in there is a C01 violation too.
+fn consume_error<E: std::error::Error>(e: &E) {
+    let _ = e.to_string();
+    let _ = format!("{e:#} {e:?}");
+    let mut source = e.source();
+    while let Some(inner) = source {
+        let _ = format!("{inner} {inner:#} {inner:?}");
+        source = inner.source();
+    }
+}
+
 fn run_text(text: &str) -> Sexp {
     let ok = |v: Vec<Sexp>| tagged("ok", v);
     let err = || tagged("err", vec![]);
@@ -159,7 +172,10 @@ fn run_text(text: &str) -> Sexp {
                 "program",
                 vec![guarded(|| match Program::from_str(text) {
                     Ok(_) => ok(vec![]),
-                    Err(_) => err(),
+                    Err(e) => {
+                        consume_error(&e);
+                        err()
+                    }
                 })],
             ),
             tagged(
@@ -167,8 +183,7 @@ fn run_text(text: &str) -> Sexp {
                 vec![guarded(|| match Instruction::from_str(text) {
                     Ok(i) => ok(vec![Enc::new().instruction(&i)]),
                     Err(e) => {
-                        // the error's Display runs in `from_str` already; run the Debug too
-                        let _ = format!("{e:?}");
+                        consume_error(&e);
                         err()
                     }
                 })],
@@ -178,7 +193,7 @@ fn run_text(text: &str) -> Sexp {
                 vec![guarded(|| match Expression::from_str(text) {
                     Ok(e) => ok(vec![expr_to_sexp(&e)]),
                     Err(e) => {
-                        let _ = format!("{e} {e:#}");
+                        consume_error(&e);
                         err()
                     }
                 })],
@@ -188,7 +203,7 @@ fn run_text(text: &str) -> Sexp {
                 vec![guarded(|| match MemoryReference::from_str(text) {
                     Ok(r) => ok(vec![memref_to_sexp(&r)]),
                     Err(e) => {
-                        let _ = format!("{e} {e:#}");
+                        consume_error(&e);
                         err()
                     }
                 })],
@@ -198,7 +213,7 @@ fn run_text(text: &str) -> Sexp {
                 vec![guarded(|| match FrameIdentifier::from_str(text) {
                     Ok(f) => ok(vec![ast::frame_identifier_to_sexp(&f)]),
                     Err(e) => {
-                        let _ = format!("{e} {e:#}");
+                        consume_error(&e);
                         err()
                     }
                 })],
@@ -414,6 +429,10 @@ const CORPUS: &[&str] = &[
     "CALL f -0.0-0.0i",
     "CALL f i",
     "CALL f 1+i",
+    // error construction / formatting: a lex error on a line longer than 100 bytes with a multi-byte
+    // character straddling byte offset 100 (a seeded `&s[..100]` in the lex-error snippet panics here)
+    "H 0;H 0;H 0;H 0;H 0;H 0;H 0;H 0;H 0;H 0;H 0;H 0;H 0;H 0;H 0;H 0;H 0;H 0;H 0;H 0;H 0;H 0;H 0;H 0;H 1\u{e9}",
+    "PULSE 0 \"aaaaaaaaaaaaaaaaaaaaaaaaaaaaaaaaaaaaaaaaaaaaaaaaaaaaaaaaaaaaaaaaaaaaaaaaaaaaaaaaaaaaaaa\u{416}\u{416}\u{416}\u{416}\" w() $",
     // regression: these three tripped a debug assertion inside `lexical` before c330f06
     "MOVE ro 1._0000000000000000001",
     "MOVE ro 45._13920674617104288926664e272",
@@ -568,6 +587,92 @@ fn nested(shape: usize, n: usize) -> String {
     }
 }
 
+/// ASCII filler of exactly `n` bytes made of `;`-separated instructions (`H 0;H 0;…`, padded with
+/// spaces), so that a long line is still a sequence of valid instructions.
+fn filler(n: usize) -> String {
+    let mut s = String::new();
+    while s.len() + 4 <= n {
+        s.push_str("H 0;");
+    }
+    while s.len() < n {
+        s.push(' ');
+    }
+    s
+}
+
+/// Stream (v): long single-line inputs with a multi-byte character (`width` bytes) starting at byte
+/// offset `start` of its line, in one of three contexts, combined with no error, a lex error after it,
+/// a lex error before it, or a parse error.  `lead` is put in front (earlier lines, `\r\n`, tabs).
+fn long_line(lead: &str, start: usize, ch: char, context: usize, error: usize) -> String {
+    // the text of the line up to the character, of exactly `start` bytes
+    let (mut line, close) = match context {
+        // inside a string literal: `PRAGMA x "aaaa…` (10 bytes of head)
+        0 => {
+            let head = "PRAGMA x \"";
+            if start < head.len() + 1 {
+                (filler(start), "")
+            } else {
+                (format!("{head}{}", "a".repeat(start - head.len())), "\"")
+            }
+        }
+        // inside a comment: `H 0;…;# ccc…`
+        1 => {
+            if start < 8 {
+                (filler(start), "")
+            } else {
+                let code = filler((start / 2) & !3);
+                (format!("{code}#{}", "c".repeat(start - code.len() - 1)), "")
+            }
+        }
+        // bare: the character itself is a lex error
+        _ => (filler(start), ""),
+    };
+    // a lex error BEFORE the character, on the same line (replaces one filler byte)
+    if error == 2 && start > 12 {
+        let at = if context == 0 { 0 } else { 4 };
+        if context == 0 {
+            line = format!("${}", &line[1..]);
+        } else {
+            line.replace_range(at..at + 1, "$");
+        }
+    }
+    line.push(ch);
+    line.push_str(match context {
+        0 => "bbbb",
+        1 => "cccc",
+        _ => "",
+    });
+    line.push_str(close);
+    match error {
+        // a lex error after the character
+        1 => line.push_str(" $"),
+        // a parse error after the character (new statement, so it also works after a comment… no: a
+        // comment swallows the rest of the line; put it on the next line there)
+        3 => line.push_str(if context == 1 { "\n)" } else { ";)" }),
+        _ => {}
+    }
+    format!("{lead}{line}")
+}
+
+/// Stream (vi): error positions at the end of input, on empty lines, after `\r\n`, with tabs.
+fn error_positions() -> Vec<String> {
+    let prefixes = ["", "\n", "\n\n", "\r\n", "X 0\r\n", "\t", "X 0\n\t", "# c\n", "   ", "X 0;", "\u{e9}\n", "# \u{1F600}\r\n"];
+    let bodies = [
+        "$", "RX(", "\"abc", "ADD ro +1", "1e", "0x", "\u{e9}", "X 0 $", ")", "DEFCAL X 0:\n\t$", "DEFCAL X 0:\n\tRX(",
+        "PULSE 0 \"f\" w(a: ", "\"\u{416}\" $", "X 0 # \u{91cf}\n$", "MOVE ro 99999999999999999999", "X 0 Y 1",
+    ];
+    let suffixes = ["", "\n", "\r\n", "\n\n", " ", "\t", "\nX 0", "\r", "\n\t\n"];
+    let mut v = Vec::new();
+    for p in prefixes {
+        for b in bodies {
+            for s in suffixes {
+                v.push(format!("{p}{b}{s}"));
+            }
+        }
+    }
+    v
+}
+
 fn mutate_text(rng: &mut Rng, text: &str) -> String {
     const INSERT: [char; 24] = [
         '(', ')', '[', ']', ',', ':', ';', '\n', '\t', ' ', '"', '\\', '#', '-', '+', '*', '/', '^', '%', '@', '!', '0',
@@ -664,6 +769,63 @@ fn run(ctx: &mut Ctx) {
         for t in number_templates(n) {
             g.text("num", &t);
         }
+    }
+
+    // (v) long lines with multi-byte characters straddling every byte offset of a window, in a string,
+    // a comment or bare, with no error / a lex error after / a lex error before / a parse error
+    let offsets: Vec<usize> = if quick {
+        (58..=70).chain(90..=140).chain(124..=132).chain(250..=262).collect()
+    } else {
+        (8..=300).collect()
+    };
+    let chars = ['\u{e9}', '\u{91cf}', '\u{1F600}'];
+    for &k in &offsets {
+        for ch in chars {
+            let w = ch.len_utf8();
+            // the character covers byte offset k: it starts at k - a for a in 0..w
+            for a in 0..w {
+                if k < a {
+                    continue;
+                }
+                let start = k - a;
+                for context in 0..3 {
+                    for error in 0..4 {
+                        // one representative alignment per (offset, width) carries all contexts and
+                        // errors; the other alignments only the lex-error-after form
+                        if a != w / 2 && !(error == 1 && context == 0) {
+                            continue;
+                        }
+                        g.text("longline", &long_line("", start, ch, context, error));
+                    }
+                }
+            }
+        }
+    }
+    for lead in ["X 0\n", "X 0\r\n", "\n\n", "\tX 0\n", "# \u{91cf}\n"] {
+        for &k in &[63usize, 64, 99, 100, 101, 127, 128, 255, 256] {
+            for ch in chars {
+                for context in 0..3 {
+                    for error in 1..4 {
+                        g.text("longline", &long_line(lead, k - 1, ch, context, error));
+                    }
+                }
+            }
+        }
+    }
+    // (v') parse errors whose offending TOKEN (shown, Debug-formatted, in the error's snippet) holds a
+    // multi-byte character at every small byte offset
+    for k in 0..48usize {
+        for ch in chars {
+            let body = format!("{}{ch}{}", "a".repeat(k), "b".repeat(3));
+            g.text("tokerr", &format!("\"{body}\""));
+            g.text("tokerr", &format!("X 0 \"{body}\" )"));
+            g.text("tokerr", &format!("DECLARE ro BIT # {body}\n)"));
+            g.text("tokerr", &format!("PRAGMA {} \"{body}\" \"{body}\"", "p".repeat(k + 1)));
+        }
+    }
+    // (vi) error positions at the end of input, on empty lines, after \r\n, with tabs
+    for t in error_positions() {
+        g.text("errpos", &t);
     }
 
     // (2a) exhaustive token sequences
